@@ -863,6 +863,10 @@ class _MIPS32_ELF(ABI):
             results.add(self.get_register(reg))
         return results
 
+    def byteorder(self) -> Literal["little", "big"]:
+        # The assembler targets the big-endian "mips" triple for this ABI.
+        return "big"
+
     def pointer_size(self) -> int:
         return 4
 
